@@ -365,7 +365,7 @@ func newInterpreter(ex *explorer, solver *Solver) *interpreter {
 		sizes:    ex.sizes,
 		extCache: map[*ssa.Function]externalFn{},
 		extMiss:  map[*ssa.Function]bool{},
-		envSizes: map[*ssa.Function]int{},
+		fnInfos:  map[*ssa.Function]*fnInfo{},
 		funcs:    map[*ssa.Function]bool{},
 		nativeCalls: map[string]int64{},
 		trace:    ex.cfg.Trace,
